@@ -477,6 +477,63 @@ def judge_reregistered_builtin(m):
                 TRANSFORMS[k] = v
 
 
+def judge_lookalike_caller(m):
+    """A caller whose module name or file path merely BEGINS like the library's (formulae_recipes,
+    .../formulae_contrib/models.py) is a caller like any other: its own frame is the scope."""
+    import os
+    import formulae
+
+    pkg = os.path.dirname(os.path.abspath(formulae.__file__))
+    rng = np.random.default_rng(10)
+    REC_N[0] = 6
+    for modname, fname in (("formulae_recipes", pkg + "_contrib" + os.sep + "models.py"), ("formulaextras.models", pkg + "extras" + os.sep + "m.py"),
+                           ("formulae.contrib_not_really", os.path.join(os.path.dirname(pkg), "formulae_helpers.py"))):
+        for env in (0, 1):
+            for subset in (("locals",), ("globals",), ("extra",), ("locals", "globals", "extra"), ()):
+                for raw in (False, True):
+                    data = pd.DataFrame({"y": rng.normal(size=6), "x": rng.normal(size=6)})
+                    rec = Recorder()
+                    ns = {"rec": rec}
+                    if "extra" in subset:
+                        ns["zq"] = 50.0
+                    src = "def outer():\n" + ("    zq = 301.0\n" if "locals" in subset else "    pad = 1\n") + "    return inner()\n" \
+                          "def inner():\n" + ("    zq = 300.0\n" if "locals" in subset else "    pad = 0\n") + \
+                          "    return _dm('y ~ rec(zq)', _data, env=_env, extra_namespace=_ns)\n"
+                    g = {"__name__": modname, "np": np, "_data": data, "_env": env, "_ns": ns,
+                         "_dm": attach.ORIG["design_matrices"] if raw else formulae.design_matrices}
+                    if "globals" in subset:
+                        g["zq"] = 400.0
+                    exec(compile(src, fname, "exec"), g)
+                    case = {"role": "lookalike-caller", "module": modname, "file": fname, "env": env, "scopes": list(subset), "raw": raw}
+                    m.current_case = case
+                    m.case(case, canon=["lookalike", modname, env, subset, raw], nontrivial=True)
+                    want = None
+                    if "locals" in subset:
+                        want = 300.0 + env
+                    elif "globals" in subset:
+                        want = 400.0
+                    elif "extra" in subset:
+                        want = 50.0
+                    try:
+                        g["outer"]()
+                        got, exc = float(rec.args[0][0][0]), None
+                    except Exception as e:
+                        got, exc = None, e
+                    if want is None:
+                        m.ev("undefined-name-raises")
+                        if exc is None:
+                            m.violation("undefined-name-raises", f"caller in module {modname!r} ({fname}): 'zq' is defined nowhere but resolved to {got}",
+                                        case=case, key="lookalike:undefined-resolves")
+                        continue
+                    m.ev("env-selects-frame")
+                    if exc is not None:
+                        m.violation("env-selects-frame", f"caller in module {modname!r} ({fname}), env={env}: {type(exc).__name__}: {exc}", case=case,
+                                    key="lookalike:raises")
+                    elif got != want:
+                        m.violation("env-selects-frame", f"caller in module {modname!r} ({fname}), env={env}, 'zq' defined in {list(subset)}: value {got} "
+                                    f"was used, {want} expected", case=case, key="lookalike:wrong-frame")
+
+
 def judge_unbound_module(m):
     """A dotted callee whose first name is bound in NO scope is undefined, even if a module of that name could
     be imported (numpy is bound as `np` only, json / math / statistics not at all)."""
@@ -503,6 +560,8 @@ def judge_unbound_module(m):
 def run_shard(i, n, tier, seed, m):
     if i == 3 % n:
         core.guarded(judge_unbound_module)(m)
+    if i == 4 % n:
+        core.guarded(judge_lookalike_caller)(m)
     if i == 2 % n:
         core.guarded(judge_reregistered_builtin)(m)
     if i == 0:
